@@ -129,6 +129,23 @@ def run(F, R, tier):
         ok = len(arms) == 2 and arms[0][1] == arms[1][1]
         R.ob("reader-branches-agree", "file and stdin branches of next_packet perform the same call sequence", ok,
              "; ".join("%s: %s" % a for a in arms)[:300], F.loc(np_))
+    # fixed-size structures (global header, record header, record payload) are read completely or not at all: the pcap
+    # reader uses read_exact only; a plain `read` may return fewer bytes and the rest would be decoded as zeroes
+    n_exact = 0
+    for fn in (PCAP + "Pcap::from_file", PCAP + "Pcap::next_packet"):
+        g = F.fn(fn)
+        if not R.anchor(fn, g):
+            continue
+        for c in H.walk(H.body_of(g)):
+            if c.get("k") != "mcall":
+                continue
+            cal = c.get("decl") or c.get("callee") or ""
+            if cal.endswith("Read::read_exact"):
+                n_exact += 1
+            elif cal.endswith(("Read::read", "Read::read_to_end", "Read::read_vectored", "BufRead::fill_buf")) or (c["m"] == "read" and "Read" in (c.get("decl") or "")):
+                R.ob("fixed-size-reads-exact", "%s: %s" % (H.last(fn), H.render(c)[:80]), False,
+                     "a fixed-size pcap structure is read with %s, which may deliver fewer bytes than the structure needs" % c["m"], F.loc(g, c.get("line")))
+    R.ob("fixed-size-reads-exact", "global header, record headers and payloads are read with read_exact", n_exact >= 6, "%d read_exact calls" % n_exact)
     # ---- (d) EOF mapping siblings ------------------------------------------------------------------------------------------
     def eof_handling(fn):
         g = F.fn(fn)
